@@ -6,7 +6,7 @@ Variable buffer : bool.
 (* a well-formed test: starts (or is decorator-skipped), ..., stops *)
 Definition closed (xs : list bstep) : Prop :=
   exists mid, (xs = BStart :: mid ++ [BStop] \/ xs = BDeco :: mid ++ [BStop]) /\
-              Forall (fun x => match x with BWrite _ | BRes _ => True | _ => False end) mid.
+              Forall (fun x => match x with BWrite _ | BRes _ | BReinstall => True | _ => False end) mid.
 
 Lemma steps_closed b wr : closed (steps b wr).
 Proof.
@@ -38,15 +38,17 @@ Lemma J_fold t xs : forall s, J s -> J (fold_left (bstep_apply buffer t) xs s).
 Proof. induction xs as [|x xs IH]; simpl; intros s H; [exact H | apply IH, J_step, H]. Qed.
 
 Definition is_mid (x : bstep) : Prop := match x with BWrite _ | BRes _ => True | _ => False end.
+Definition is_mid' (x : bstep) : Prop := match x with BWrite _ | BRes _ | BReinstall => True | _ => False end.
 
 (* writes and result events never touch the boundary flag *)
-Lemma mid_boundary t xs : Forall is_mid xs -> forall s,
+Lemma mid_boundary t xs : Forall is_mid' xs -> forall s,
   boundary_ok (fold_left (bstep_apply buffer t) xs s) = boundary_ok s.
 Proof.
   induction 1 as [|x xs Hx _ IH]; intros s; simpl; [reflexivity|]. rewrite IH.
   destruct x; try destruct Hx; simpl.
   - destruct (cur s); reflexivity.
-  - unfold restore. destruct (buffer && cur s); destruct (reports r); reflexivity.
+  - reflexivity.
+  - unfold restore. destruct buffer; destruct (reports r); reflexivity.
 Qed.
 
 (* C13: at every test boundary and after the run the original streams are in place *)
@@ -64,11 +66,10 @@ Proof.
     set (s2 := fold_left (bstep_apply buffer t) mid s1).
     assert (Hb2 : boundary_ok s2 = true) by (unfold s2; rewrite mid_boundary; assumption).
     assert (HJ2 : J s2) by (apply J_fold, HJ1).
-    unfold restore. destruct (buffer && cur s2) eqn:E; simpl.
-    - rewrite Hb2. split; [reflexivity|]. split; [reflexivity|]. intros _. reflexivity.
-    - assert (Hc2 : cur s2 = false).
-      { destruct (cur s2) eqn:Ec; [|reflexivity]. rewrite andb_true_r in E. apply HJ2 in E. congruence. }
-      rewrite Hb2, Hc2. split; [reflexivity|]. split; [reflexivity|]. intros _. simpl. auto. }
+    unfold restore. destruct (Bool.bool_dec buffer true) as [Eb|Eb].
+    - rewrite Eb. simpl. rewrite Hb2. split; [reflexivity|]. split; [reflexivity|]. intros _. reflexivity.
+    - apply Bool.not_true_is_false in Eb. assert (Hc2 : cur s2 = false) by (apply HJ2; exact Eb).
+      rewrite Eb. simpl. rewrite Hb2, Hc2. split; [reflexivity|]. split; [reflexivity|]. intros _. reflexivity. }
   destruct Hxs as [->| ->]; apply Hgen; auto.
 Qed.
 
@@ -92,30 +93,36 @@ Definition vis (t : nat) (x : bstep) : list (nat * nat) :=
 Lemma flatten_app a b : flatten_log (a ++ b) = flatten_log a ++ flatten_log b.
 Proof. unfold flatten_log. apply flat_map_app. Qed.
 
-(* once the original streams are in place everything the test writes goes straight out, in order *)
-Lemma direct_when_restored buffer t : forall xs q, Forall is_mid xs -> cur q = false ->
-  cur (fold_left (bstep_apply buffer t) xs q) = false /\
+(* once the original streams are in place (and the capture buffers are empty) everything the test writes goes
+   straight out, in order, and its failure/error events print their header *)
+Lemma direct_step buffer t q x : is_mid x -> cur q = false -> buf q = [] ->
+  cur (bstep_apply buffer t q x) = false /\ buf (bstep_apply buffer t q x) = [] /\
+  flatten_log (log (bstep_apply buffer t q x)) = flatten_log (log q) ++ vis t x.
+Proof.
+  intros Hx Hq Hb. destruct x; try destruct Hx.
+  - simpl. rewrite Hq. simpl. rewrite flatten_app. auto.
+  - simpl. unfold restore. destruct buffer; destruct (reports r); simpl; rewrite ?Hb, ?flatten_app, ?app_nil_r; auto.
+Qed.
+Lemma direct_when_restored buffer t : forall xs q, Forall is_mid xs -> cur q = false -> buf q = [] ->
+  cur (fold_left (bstep_apply buffer t) xs q) = false /\ buf (fold_left (bstep_apply buffer t) xs q) = [] /\
   flatten_log (log (fold_left (bstep_apply buffer t) xs q)) = flatten_log (log q) ++ flat_map (vis t) xs.
 Proof.
-  induction xs as [|x xs IH]; intros q Hm Hq; simpl.
+  induction xs as [|x xs IH]; intros q Hm Hq Hb; simpl.
   - rewrite app_nil_r. auto.
-  - inversion Hm as [|? ? Hx Hr]; subst. destruct x; try destruct Hx.
-    + simpl. rewrite Hq.
-      destruct (IH {| cur := false; buf := buf q; log := log q ++ [Direct tok]; boundary_ok := boundary_ok q |} Hr eq_refl) as [G1 G2].
-      split; [exact G1|]. rewrite G2. simpl. rewrite flatten_app. simpl. rewrite <- app_assoc. reflexivity.
-    + simpl. unfold restore. rewrite Hq, andb_false_r. destruct (reports r) eqn:Er.
-      * destruct (IH {| cur := cur q; buf := buf q; log := log q ++ [Report t None]; boundary_ok := boundary_ok q |} Hr Hq) as [G1 G2].
-        split; [exact G1|]. rewrite G2. simpl. rewrite flatten_app. simpl. rewrite <- app_assoc. reflexivity.
-      * destruct (IH q Hr Hq) as [G1 G2]. split; [exact G1|]. rewrite G2. reflexivity.
+  - inversion Hm as [|? ? Hx Hr]; subst.
+    destruct (direct_step buffer t q x Hx Hq Hb) as [S1 [S2 S3]].
+    destruct (IH (bstep_apply buffer t q x) Hr S1 S2) as [G1 [G2 G3]].
+    split; [exact G1|]. split; [exact G2|]. rewrite G3, S3, <- app_assoc. reflexivity.
 Qed.
 
 (* without --buffer an in-process run never replaces the streams: everything is written directly *)
-Theorem unbuffered_direct t mid s : Forall is_mid mid -> cur s = false ->
+Theorem unbuffered_direct t mid s : Forall is_mid mid -> cur s = false -> buf s = [] ->
   let s' := fold_left (bstep_apply false t) (BStart :: mid) s in
   cur s' = false /\ flatten_log (log s') = flatten_log (log s) ++ flat_map (vis t) mid.
 Proof.
-  intros Hm Hc. cbn [fold_left].
-  exact (direct_when_restored false t mid {| cur := false; buf := buf s; log := log s; boundary_ok := boundary_ok s && negb (cur s) |} Hm eq_refl).
+  intros Hm Hc Hb. cbn [fold_left].
+  destruct (direct_when_restored false t mid {| cur := false; buf := buf s; log := log s; boundary_ok := boundary_ok s && negb (cur s) |} Hm eq_refl Hb)
+    as [G1 [_ G3]]. split; [exact G1 | exact G3].
 Qed.
 
 (* with --buffer: what a test writes before its first result event is captured … *)
@@ -138,7 +145,7 @@ Proof.
   assert (H0 : cur s0 = true /\ log s0 = log s) by (unfold s0; simpl; auto). destruct H0 as [Hc0 Hl0].
   destruct (writes_captured t toks s0 Hc0) as [H1 [H2 [H3 _]]].
   set (s1 := fold_left (bstep_apply true t) (map BWrite toks) s0) in *.
-  simpl. unfold restore. rewrite H1. simpl. rewrite Hr. simpl. congruence.
+  simpl. unfold restore. simpl. rewrite Hr. simpl. congruence.
 Qed.
 
 (* … a failure or error report carries it, and whatever the test writes afterwards still comes out, under its own header *)
@@ -152,14 +159,19 @@ Proof.
   assert (H0 : cur s0 = true /\ log s0 = log s /\ buf s0 = buf s) by (unfold s0; simpl; auto). destruct H0 as [Hc0 [Hl0 Hb0]].
   destruct (writes_captured t pre s0 Hc0) as [H1 [H2 [H3 _]]].
   set (s1 := fold_left (bstep_apply true t) (map BWrite pre) s0) in *.
-  cbn [fold_left]. 
+  cbn [fold_left].
   assert (E : bstep_apply true t s1 (BRes r) =
               {| cur := false; buf := []; log := log s1 ++ [Report t (Some (buf s1))]; boundary_ok := boundary_ok s1 |}).
-  { simpl. unfold restore. rewrite H1. simpl. rewrite Hr. reflexivity. }
+  { simpl. unfold restore. rewrite Hr. reflexivity. }
   rewrite E. rewrite fold_left_app.
   set (s2 := {| cur := false; buf := []; log := log s1 ++ [Report t (Some (buf s1))]; boundary_ok := boundary_ok s1 |}).
-  destruct (direct_when_restored true t rest s2 Hrest eq_refl) as [G1 G2].
+  destruct (direct_when_restored true t rest s2 Hrest eq_refl eq_refl) as [G1 [G2 G3]].
   set (s3 := fold_left (bstep_apply true t) rest s2) in *.
-  simpl. unfold restore. rewrite G1. simpl. rewrite G2. unfold s2. simpl. rewrite flatten_app. simpl.
+  simpl. unfold restore. simpl. rewrite G3. unfold s2. simpl. rewrite flatten_app. simpl.
   rewrite H3, H2, Hl0, Hb0, Hbuf. simpl. rewrite app_nil_r, <- app_assoc. reflexivity.
 Qed.
+
+(* test code that puts the capture stream back (contextlib.redirect_stdout around a failing subtest) cannot leave it
+   installed: the next result event or stopTest restores the originals — this is what test_restores relies on *)
+Theorem reinstall_is_undone t s : cur (bstep_apply true t (bstep_apply true t s BReinstall) BStop) = false.
+Proof. reflexivity. Qed.
